@@ -2111,7 +2111,7 @@ def _get_error_context(input_, token):
     try:
         line = input_[lexpos: input_.index('\n', lexpos)]
     except ValueError:
-        line = input_[lexpos]
+        line = input_[lexpos:]
 
     i = max(input_.rfind('\n', 0, lexpos), 0)
     line = input_[i:lexpos] + line
@@ -2127,7 +2127,9 @@ def _get_error_context(input_, token):
     pointline = ''
     i = 0
     while i < col - 1:
-        if lines[-1][i].isspace():
+        # Note: The context line may be shorter than the column, because
+        # CR characters have been stripped from it
+        if lines[-1][i:i + 1].isspace():
             pointline += lines[-1][i]
             # otherwise, tabs complicate the alignment
         else:
